@@ -26,6 +26,7 @@ type genOpts struct {
 	layouts       bool
 	secondOp      bool // a second operator swap on the same channel (both spellings)
 	peerOps       bool // the peer also initiates
+	csvBurst      int  // percent of plans in which the chain jumps past the CSV during the fault phase (with service outages around the jump)
 	reorgs        bool
 	sites         []string
 	faultKinds    []string
@@ -113,6 +114,11 @@ func genPlan(t *rapid.T, o genOpts) *world.Plan {
 	if o.secondOp && rapid.Bool().Draw(t, "second") {
 		p.Ops = append(p.Ops, world.Op{AtMs: pick(t, "at2", []int{2000, 2001, 2500, 30000}), Node: rapid.IntRange(0, 1).Draw(t, "node2"), Kind: pick(t, "type2", []string{"swapout", "swapin"}), Chain: pick(t, "chain2", o.chains), Chan: 0, Amount: pick(t, "amount2", o.amounts), Limit: 50000, Colon: rapid.Bool().Draw(t, "colon2")})
 	}
+	if o.peerOps && rapid.Bool().Draw(t, "peerop") {
+		// the peer initiates too, on a second channel, so that two swaps really run at once in each node
+		scn.Channels = append(scn.Channels, world.ChannelCfg{Block: 101, Tx: 1, Out: 1, A: 0, B: 1, BalA: 5_000_000_000, BalB: 5_000_000_000})
+		p.Ops = append(p.Ops, world.Op{AtMs: pick(t, "atp", []int{2000, 2100, 5000, 30000}), Node: 1 - initiator, Kind: pick(t, "typep", []string{"swapout", "swapin"}), Chain: pick(t, "chainp", o.chains), Chan: 1, Amount: pick(t, "amountp", o.amounts), Limit: 50000})
+	}
 	if o.sched {
 		if rapid.Bool().Draw(t, "randsched") {
 			p.SchedSeed = rapid.Uint64Range(1, 1<<32).Draw(t, "schedseed")
@@ -163,6 +169,26 @@ func genPlan(t *rapid.T, o genOpts) *world.Plan {
 			c, d = "lbtc", 1
 		}
 		p.Chain = append(p.Chain, world.ChainEv{AtMs: rapid.IntRange(3000, 120000).Draw(t, "reorgat"), Chain: c, Kind: pick(t, "reorgkind", []string{"reorg", "reorg-delay"}), N: d})
+	}
+	if o.csvBurst > 0 && rapid.IntRange(0, 99).Draw(t, "csvburst") < o.csvBurst {
+		// the CSV matures while faults are still flowing: one jump past the CSV at a known
+		// time, with outages of the services a refund needs starting shortly before it
+		at := pick(t, "burstat", []int{30000, 60000, 120000})
+		n := 1010
+		if chain == "lbtc" {
+			n = 10090
+		}
+		p.Chain = append(p.Chain, world.ChainEv{AtMs: at, Chain: chain, Kind: "mine", N: n})
+		if scn.DurationSec < at/1000+240 {
+			scn.DurationSec = at/1000 + 240
+		}
+		for i, k := 0, rapid.IntRange(0, 2).Draw(t, "noutages"); i < k; i++ {
+			from := at - pick(t, "outlead", []int{5000, 500, -200})
+			p.Faults = append(p.Faults, world.Fault{Node: rapid.IntRange(0, 1).Draw(t, "outnode"),
+				Site:   pick(t, "outsite", []string{"btcwallet.spend", "lwallet.sendraw", "btcwallet.newaddr", "lwallet.newaddr", "lwallet.fee", "btc.estimatefee", "btc.rpc.gettxout", "lbtc.rpc.gettxout", "btc.rpc.height", "lbtc.rpc.height", "electrum.history", "store.update"}),
+				Kind:   pick(t, "outkind", []string{"err", "err", "errafter"}),
+				FromMs: from, ToMs: from + pick(t, "outlen", []int{8000, 25000, 70000, 200000})})
+		}
 	}
 	if o.silence && (o.silenceAlways || rapid.Bool().Draw(t, "silence")) {
 		p.Silence = append(p.Silence, world.SilenceAt{Node: 1 - initiator, After: rapid.IntRange(0, 4).Draw(t, "silafter")})
